@@ -152,6 +152,12 @@ def run(ctx, regimes_quick, regimes_thorough, rule, assumptions):
     else:
         ctx.failed_obligations.append("harness-build")
     vlib.obligations_broken(ctx, found)
+    if ctx.violations:
+        # /repo is shared: somebody else's mutation test may have been applied while this check ran
+        st = vlib.run(["git", "-C", str(vlib.REPO), "status", "--short"]).stdout.strip()
+        if st:
+            ctx.log("note: /repo has uncommitted changes (another mutation test may be running):\n" + st)
+            ctx.notes.append("uncommitted changes in /repo at the end of the run: " + st)
     ctx.assumptions += assumptions
     return vlib.finish(ctx, "proof", rule)
 
